@@ -286,8 +286,11 @@ def rule_provenance(ck: Check, repo: Repo) -> None:
         r.violation("reuse._annotate.add_header_to_file", "path rebinding", f"{rb}", repo.loc(ah))
     dl = repo.commands()["download"]
     s3 = re.sub(r"\s+", " ", ast.unparse(dl))
+    from ..model import kwarg as _kw
+    puts = find_calls(dl, lambda c, f: f == "put_license_in_file")
     ok = "destination: Path = output" in s3 and "if destination is None: destination = _path_to_license_file(lic, obj.project)" in s3 \
-        and "put_license_in_file(lic, destination=destination, source=source)" in s3
+        and len(puts) == 1 and ast.unparse(_kw(puts[0], "destination") or ast.Constant(None)) == "destination" \
+        and ast.unparse(_kw(puts[0], "spdx_identifier") or ast.Constant(None)) == "lic"
     r.instance("download-destination", {"ok": ok})
     if not ok:
         r.violation(repo.qualname_of(dl), "download destination", "must be --output or LICENSES/<id>.txt", repo.loc(dl))
